@@ -3,7 +3,7 @@
 scratch copy of /repo/src, run a check against it (VERIF_REPO), expect exit 1.
 
   tools/mutate.py list
-  tools/mutate.py run <mutant-id|all|Cxx> [--tier quick] [--keep]
+  tools/mutate.py run <mutant-id[,id..]|all|Cxx> [--tier quick] [--as Cyy]
 """
 import json
 import os
@@ -72,7 +72,12 @@ def main():
     if '--tier' in sys.argv:
         tier = sys.argv[sys.argv.index('--tier') + 1]
     ms = [m for m in MUTANTS if sel == 'all' or m['id'] == sel or
-          sel in m['props'] or m['id'].startswith(sel + '-')]
+          sel in m['props'] or m['id'].startswith(sel + '-') or
+          m['id'] in sel.split(',')]
+    if '--as' in sys.argv:
+        # run another property's check against the selected mutants
+        as_pid = sys.argv[sys.argv.index('--as') + 1]
+        ms = [dict(m, props=[as_pid]) for m in ms]
     from concurrent.futures import ThreadPoolExecutor
     results = {}
     with ThreadPoolExecutor(max_workers=int(os.environ.get('MUT_JOBS', '6'))) as ex:
